@@ -13,12 +13,17 @@
 (*            only; the caller's original payload objects AND the storage  *)
 (*            of the container the message was built from stay intact      *)
 (*            (knob ProtectKeepsPayloads).                                 *)
+(*   Every buffer an Encode returned and the caller still holds stays as   *)
+(*   returned whatever is encoded later (knob OutputsDistinct: no pooled   *)
+(*   or reused output storage), and encoding a message that came out of    *)
+(*   Decode -- edited by the caller or not -- never writes into the        *)
+(*   receive buffer it was decoded from (knob EncodeLeavesInput).          *)
 (* The histories TLC explores here are printed by Gen_Heap and replayed    *)
 (* on real buffers and messages.                                           *)
 (***************************************************************************)
 EXTENDS Naturals, Sequences
 
-CONSTANTS CopyOnDecode, EncodeFresh, ProtectKeepsPayloads, MaxOps
+CONSTANTS CopyOnDecode, EncodeFresh, ProtectKeepsPayloads, OutputsDistinct, EncodeLeavesInput, MaxOps
 VARIABLES inver,    \* version of the receive buffer (0 = as received)
           dec,      \* decoded message: [alias |-> BOOLEAN, ver |-> Nat] or [alias |-> FALSE, ver |-> 99] when absent
           hasdec,
@@ -28,34 +33,43 @@ VARIABLES inver,    \* version of the receive buffer (0 = as received)
           hasout,
           encs,     \* sequence of "what an encoding returned" (srcver at that time)
           prot,     \* the source message has been protected (its payload list is now the Encrypted payload)
+          helds,    \* per buffer returned so far: number of writes by anybody but the caller since it was returned
+          inlib,    \* number of writes into the receive buffer by the library
           ops
-vars == << inver, dec, hasdec, srcver, outver, outalias, hasout, encs, prot, ops >>
+vars == << inver, dec, hasdec, srcver, outver, outalias, hasout, encs, prot, helds, inlib, ops >>
 
 Init == inver = 0 /\ dec = [alias |-> FALSE, ver |-> 0] /\ hasdec = FALSE /\ srcver = 0 /\ outver = 0 /\ outalias = FALSE
-        /\ hasout = FALSE /\ encs = << >> /\ prot = FALSE /\ ops = << >>
+        /\ hasout = FALSE /\ encs = << >> /\ prot = FALSE /\ helds = << >> /\ inlib = 0 /\ ops = << >>
 
 Op(o) == ops' = Append(ops, o) /\ Len(ops) < MaxOps
 
 \* Decode / Unprotect of the receive buffer as it is now
 Decode(how) == /\ Op(how)
                /\ dec' = [alias |-> ~CopyOnDecode, ver |-> inver] /\ hasdec' = TRUE
-               /\ UNCHANGED << inver, srcver, outver, outalias, hasout, encs, prot >>
+               /\ UNCHANGED << inver, srcver, outver, outalias, hasout, encs, prot, helds, inlib >>
 \* the caller overwrites / reuses the receive buffer
-ScribbleIn == Op("scribble_in") /\ inver' = inver + 1 /\ UNCHANGED << dec, hasdec, srcver, outver, outalias, hasout, encs, prot >>
+ScribbleIn == Op("scribble_in") /\ inver' = inver + 1 /\ UNCHANGED << dec, hasdec, srcver, outver, outalias, hasout, encs, prot, helds, inlib >>
+\* what happens to the buffers returned earlier when another one is produced
+Returned(h) == IF OutputsDistinct THEN h ELSE [i \in 1..Len(h) |-> h[i] + 1]
 \* Encode of the source message
 Encode == /\ ~prot /\ Op("encode") /\ hasout' = TRUE /\ outver' = 0 /\ outalias' = ~EncodeFresh
           /\ encs' = Append(encs, srcver)
-          /\ UNCHANGED << inver, dec, hasdec, srcver, prot >>
+          /\ helds' = Append(Returned(helds), 0)
+          /\ UNCHANGED << inver, dec, hasdec, srcver, prot, inlib >>
+\* Encode of the DECODED message after the caller put one more payload in front (its own object, its own container)
+EncodeDec == /\ hasdec /\ Op("encode_dec") /\ helds' = Append(Returned(helds), 0)
+             /\ inlib' = (IF EncodeLeavesInput THEN inlib ELSE inlib + 1)
+             /\ UNCHANGED << inver, dec, hasdec, srcver, outver, outalias, hasout, encs, prot >>
 \* the caller writes into the returned buffer
 ScribbleOut == /\ hasout /\ Op("scribble_out") /\ outver' = outver + 1
                /\ srcver' = (IF outalias THEN srcver + 1 ELSE srcver)
-               /\ UNCHANGED << inver, dec, hasdec, outalias, hasout, encs, prot >>
+               /\ UNCHANGED << inver, dec, hasdec, outalias, hasout, encs, prot, helds, inlib >>
 \* Protect: payload list replaced by the Encrypted payload; the original payload objects must survive
 Protect == /\ ~prot /\ Op("protect") /\ srcver' = (IF ProtectKeepsPayloads THEN srcver ELSE srcver + 1) /\ prot' = TRUE
-           /\ UNCHANGED << inver, dec, hasdec, outver, outalias, hasout, encs >>
-Observe == Op("observe") /\ UNCHANGED << inver, dec, hasdec, srcver, outver, outalias, hasout, encs, prot >>
+           /\ UNCHANGED << inver, dec, hasdec, outver, outalias, hasout, encs, helds, inlib >>
+Observe == Op("observe") /\ UNCHANGED << inver, dec, hasdec, srcver, outver, outalias, hasout, encs, prot, helds, inlib >>
 
-Next == Decode("decode") \/ Decode("unprotect") \/ ScribbleIn \/ Encode \/ ScribbleOut \/ Protect \/ Observe
+Next == Decode("decode") \/ Decode("unprotect") \/ ScribbleIn \/ Encode \/ EncodeDec \/ ScribbleOut \/ Protect \/ Observe
 
 DecodedValue == IF dec.alias THEN inver ELSE dec.ver
 \* ---- C20
@@ -63,4 +77,6 @@ DecodedStable       == hasdec => DecodedValue = dec.ver
 EncodePure          == srcver = 0
 EncodeDeterministic == \A i, j \in 1..Len(encs) : encs[i] = encs[j]
 ProtectFootprint    == srcver = 0
+HeldOutputsIntact   == \A i \in 1..Len(helds) : helds[i] = 0
+InputOnlyByCaller   == inlib = 0
 =============================================================================
